@@ -421,8 +421,15 @@ def check_triangle(ctx, np, S, cfg, bank, i, v, chk):
     r = ctx.rng
     rate = cfg["rate"]
     mel = S.MelScaling()
-    for width in sorted(set([r.choice([8, 9, 16, 31, 64, 100]), r.choice([255, 256, 512, 1000, 1023]), r.randint(2, 2048)])):
-        for half in (False, True):
+    widths = sorted(set([r.choice([8, 9, 16, 31, 64, 100]), r.choice([255, 256, 512, 1000, 1023]), r.randint(2, 2048)]))
+    # the same bank object is then asked for a width whose full response has as many bins as the half response it
+    # has just returned (same array size, other bin frequencies): its answer must not depend on earlier questions
+    wl = widths[-1]
+    widths.append(wl // 2 + 1 if wl % 2 == 0 else (wl + 1) // 2)
+    for width in widths:
+        if width < 2:
+            continue
+        for half in ((False, True) if r.random() < 0.5 else (True, False)):
             with warnings.catch_warnings():
                 warnings.simplefilter("ignore")
                 try:
